@@ -86,6 +86,9 @@ def gen_plan(rng, tier="quick"):
     }
     if rng.random() < 0.1:
         recipe["dir_first"] = True
+    recipe["depth"] = rng.choice(["shelf", "shelf", "deep", "mixed"])
+    if rng.random() < 0.15:
+        recipe["origin_site"] = True
     # storage-level variations of the same contents (coordinate dtypes, labels, attributes)
     if rng.random() < 0.12:
         recipe["dir_dtype"] = rng.choice(["int64", "float32"])
@@ -189,6 +192,13 @@ def gen_plan(rng, tier="quick"):
         r2["data"]["seed"] = rng.randrange(10**6)
         if rng.random() < 0.5:
             r2["nf"], r2["nd"] = recipe["nf"], recipe["nd"]     # same grid, other contents
+            if rng.random() < 0.5:
+                # same number of bins, other bin values (another model's frequencies / rotated directions)
+                fq = dict(r2.get("freq", {}))
+                fq["f0"] = round(float(fq.get("f0", 0.04)) * rng.choice([0.6, 0.8, 1.25, 1.6]), 4)
+                r2["freq"] = fq
+        if rng.random() < 0.5:
+            r2["aux_seed"] = recipe.get("data", {}).get("seed", 0)   # same sites: same winds, depths, positions
         plan["pair"] = r2
     return plan
 
@@ -395,9 +405,28 @@ def execute(arg):
             joint = dask.compute(*(fa + fb), scheduler="sync")
             rb = joint[len(fa):]
             pair_sync = cmp.canon(tuple(rb) if isinstance(lb, tuple) else rb[0])
+            sync_a = cmp.canon(tuple(joint[: len(fa)]) if isinstance(la, tuple) else joint[0])
+            pair_refs = (("first", sync_a, ds, ref_c), ("second", pair_sync, ds_b, cmp.canon(O.apply_op(ds_b, op))))
         except Exception:
             pair_sync = None      # single-dataset run
             sim.count("pair_skipped")
+    if pair_sync is not None:
+        # two lazy results that exist at the same time are each still the in-memory answer of their own dataset
+        for which, got, base, want in pair_refs:
+            dj = cmp.compare(want, got, rtol=rtol, atol=atol)
+            if dj and cls != "exact" and dj[0] in ("value", "nan-position"):
+                try:
+                    for k in range(6 if cls == "fit" else 2):
+                        if cmp.compare(want, cmp.canon(O.apply_op(_perturbed(base, k + 1), op)), rtol=rtol, atol=atol):
+                            sim.count("ill_conditioned_skipped")
+                            dj = None
+                            break
+                except Exception:
+                    pass
+            if dj:
+                add("sync", cause + ";pair", dj[0], f"two lazy results built before either is computed ({D.describe(plan['pair'])} alongside): the {which} one, computed with the sync scheduler, differs from its in-memory result: {dj[1]}")
+                return finish()
+        sim.count("pair_sync_ok")
     try:
         lazy2 = O.apply_op(dsc, op)  # fresh graph, same keys (deterministic tokens)
         if pair_sync is not None:
